@@ -1803,6 +1803,14 @@ func (interp *Interpreter) cfg(root *node, sc *scope, importPath, pkgName string
 				err = n.cfgErrorf("cannot use _ as value")
 				break
 			}
+			if c := n.child[0]; c.typ != nil && !isBool(c.typ) {
+				err = c.cfgErrorf("invalid operation: operator && not defined on %s", c.typ.id())
+				break
+			}
+			if c := n.child[1]; c.typ != nil && !isBool(c.typ) {
+				err = c.cfgErrorf("invalid operation: operator && not defined on %s", c.typ.id())
+				break
+			}
 			n.start = n.child[0].start
 			n.child[0].tnext = n.child[1].start
 			setFNext(n.child[0], n)
@@ -1816,6 +1824,14 @@ func (interp *Interpreter) cfg(root *node, sc *scope, importPath, pkgName string
 		case lorExpr:
 			if isBlank(n.child[0]) || isBlank(n.child[1]) {
 				err = n.cfgErrorf("cannot use _ as value")
+				break
+			}
+			if c := n.child[0]; c.typ != nil && !isBool(c.typ) {
+				err = c.cfgErrorf("invalid operation: operator || not defined on %s", c.typ.id())
+				break
+			}
+			if c := n.child[1]; c.typ != nil && !isBool(c.typ) {
+				err = c.cfgErrorf("invalid operation: operator || not defined on %s", c.typ.id())
 				break
 			}
 			n.start = n.child[0].start
